@@ -134,7 +134,9 @@ RULE = ("corpus, then random patterns (depth<=3 over Cabinet/Drawer/Handle-like 
         "data of that moment; 30% of the cases hand the domain over as a one-shot generator / iterator / tuple and "
         "30% start evaluations of the same query object that are ABANDONED after 0-3 results (iterator kept or "
         "dropped) before the first complete evaluation and at the beginning / end of steps - the answers of the "
-        "complete evaluations must not change and the rows handed out must be specified rows; non-trivial = the specified "
+        "complete evaluations must not change and the rows handed out must be specified rows; the values of the str "
+        "attributes (Handle.name, Cabinet.name: pattern depths 1-3) are proper substrings of one another and include "
+        "the empty string (table NAMES); non-trivial = the specified "
         "answer is neither empty nor all candidate elements; distinct by case text")
 
 # ---------------------------------------------------------------------------------------------- static description
